@@ -29,6 +29,8 @@ def run(patchdir, props=None):
                 importlib.import_module(f"sa.rules.{p}").check(ctx)
                 fired = []
                 for ob in ctx.obligations:
+                    if ob.error:
+                        fired.append(f"ANALYSIS-ERROR {ob.id}: {ob.error[:140]}")
                     for f in ob.findings:
                         if match_known(f, known) is None:
                             fired.append(f"{f.rule} {f.function}: {f.message[:100]}")
